@@ -32,6 +32,11 @@ def gen_trace(seed, world, tier, mode=None):
     kind = R.choice(KINDS)
     hi = 6 if tier == "quick" else 8
     m, n = R.randint(1, hi), R.randint(1, hi)
+    midsize = R.random() < 0.04
+    if midsize:
+        # mid-size problems with the DEFAULT sketch widths (block 16, test sketch 8): the only
+        # place where the defaults are narrower than the matrix
+        m, n = R.randint(17, 22), R.randint(9, 20)
     # a few requests in the wrong orientation: the documented answer is a loud rejection
     # (judged by C20); if a solver answers instead, its flag must be sound for that input too
     wrong = R.random() < 0.06
@@ -66,7 +71,12 @@ def gen_trace(seed, world, tier, mode=None):
         if kind == "rsp_compute" and R.random() < 0.25:
             block = k + R.randint(1, 10)   # clamp path of compute()
         tss = R.choice([8, 8, 8, 3, 12])
-        if R.random() < 0.2 or quiet:
+        if midsize:
+            # (clamped to the quantified domain 1..min(m,n): a direct compute_*_variant call and
+            # the hybrid do not clamp, and a wider sketch is outside the property - DESIGN 6.5)
+            block, tss, quiet = (16 if kind == "rsp_compute" else min(16, k)), 8, False
+            budget = min(budget, 50)
+        if not midsize and (R.random() < 0.2 or quiet):
             if quiet and k >= 2:
                 block = R.randint(1, k - 1)
             tss = block          # coincidence knob: test sketch as wide as the projection sketch
@@ -78,6 +88,8 @@ def gen_trace(seed, world, tier, mode=None):
     elif kind == "hybrid":
         cfg = {"r": R.randint(1, k), "p": R.randint(2, 8), "T": R.randint(1, 5), "tol": tol,
                "max_iter": min(budget, 400), "column_solver": R.choice(["qr", "spd"])}
+        if midsize:
+            cfg.update(r=min(12, k), p=4, T=5, max_iter=min(budget, 50))      # the defaults, r within 1..min(m,n)
         cls, meth = "solver.HybridRSPNewtonSchulz", "compute"
     else:
         cfg = {"tol": tol, "max_iter": R.choice([budget, 500]),
